@@ -449,21 +449,29 @@ TIERS = {
     'thorough': {'runs': 640, 'deadline': 2700.0, 'min_runs': 100},
 }
 
-RULE = ("One run = one seeded world (synthetic spectro + photo survey trees with storage damage, "
-        "10-20 bystander variables, simulated clock) and a history of 1-4 invocations of "
-        "template_input / window_score / window_read(rescore) sharing one workspace, each with a drawn "
-        "entry state (set/unset) of RUN2D, RUN1D, PHOTO_CALIB and of the required variables. Every "
-        "invocation is first recorded fault-free under sys.monitoring (CALL + PY_START events of all "
-        "pydl code), then re-executed from a workspace snapshot once per planned fault: every admissible "
-        "first-level call site twice (one OSError-family, one other exception; in the quick tier the matplotlib "
-        "call sites of real-Agg configurations are sampled 1 in 6), plus a call-site-"
-        "stratified seeded sample of deeper sites (all deeper sites for window_*), then once more with "
-        "the history's own drawn fault to advance the workspace. evaluations = recordings + injected "
-        "executions; after each one os.environ must equal its snapshot taken immediately before. "
-        "A case is non-trivial when the failure (natural or injected) happened inside the perturbed "
-        "window, i.e. after the first mutation of a touched variable; distinct = distinct (entry point, "
+RULE = ("One run = one seeded world (synthetic spectro + photo survey trees with storage damage, 10-20 "
+        "bystander variables plus 18 well-known knob variables present/absent at random, the matplotlib "
+        "backend in effect, a simulated clock) and a history of 1-4 invocations of template_input / "
+        "window_score / window_read(rescore) sharing one workspace and one process, each with a drawn "
+        "entry state of RUN2D, RUN1D, PHOTO_CALIB (unset, sentinel, empty string, equal to the value "
+        "the code will set, equal up to case, values on which path/blank normalisation is not the "
+        "identity) and of the required variables; 20 % of the histories are scenarios in which a run "
+        "that gets as far as writing its dump file is followed by runs over the same workspace with "
+        "the same, an edited or another parameter file. Every invocation is first recorded fault-free "
+        "under sys.monitoring (CALL + PY_START events of all pydl code, every os.environ mutation), "
+        "then re-executed from a workspace snapshot once per planned fault: every admissible first-"
+        "level call site three times (exception on entry: one OSError-family, one other; exception "
+        "on return after the collaborator completed its effect; in the quick tier the matplotlib "
+        "sites of real-Agg configurations are sampled 1 in 6), a call-site-stratified seeded sample "
+        "of deeper sites (all of them for window_*; sites inside the window of any other variable "
+        "the code mutates first), for a few delivered faults a second fault at each call site that "
+        "only exists on the failure path (chained faults), then once more with the history's own "
+        "drawn fault to advance the workspace. evaluations = recordings + injected executions; "
+        "after each one os.environ must equal its snapshot taken immediately before. A case is "
+        "non-trivial when the failure (natural or injected) happened inside the perturbed window, "
+        "i.e. after the first mutation of a touched variable; distinct = distinct (entry point, "
         "set/unset entry state of the touched variables, configuration class, failing call site "
-        "(function, line) and exception type) tuples.")
+        "(function, line), exception type, entry/return/chain) tuples.")
 
 REAL_VS_STUB = {
     'real': ['pydl.photoop.window.window_score / window_read', 'pydl.photoop.window.sdss_score (score=real runs)',
@@ -483,9 +491,10 @@ REAL_VS_STUB = {
 }
 
 ASSUMPTIONS = [
-    "A collaborator failure is modelled as an Exception subclass raised on entry of the call (single fault per "
-    "invocation); failure after partial effect is approximated by deeper call sites and by damaged files.",
-    "Fault points are restricted to events before the restoration mechanism starts (DESIGN.md 5.4 rule 1), to "
+    "A collaborator failure is an Exception subclass raised on entry of the call, or as the call returns after "
+    "completing its effect; failure after *partial* effect lies between the two and is approximated by deeper "
+    "call sites and by damaged files. One fault per invocation, except the deliberate [A, B] chains.",
+    "Fault points are restricted to events before the restoration mechanism starts (DESIGN.md 5.4 rules 1, 1b, 1c), to "
     "'stage' callees (rule 2: not methods of builtin containers, path-string helpers, logging or os.environ "
     "itself), one per invocation (rule 3).",
     "Only call sites inside pydl code are fault points; first-level sites are swept completely per explored "
